@@ -13,14 +13,31 @@ def _disk(ctx, name):
 
 
 def _writer_func(ctx):
-    """The function containing the package's write-mode open()."""
+    """Functions containing an open() whose mode is not a known read-only constant on some path:
+    (function, call node, mode) triples.  The mode is evaluated along paths, so a local `mode = 'rb' if ... else 'r'`
+    is recognised as read-only while a mode received as a parameter is not."""
+    cached = getattr(ctx, '_writer_cache', None)
+    if cached is not None:
+        return cached
     writers = []
+    seen = set()
     for f in ctx.prog.all_funcs():
-        for n in walk_shallow(f.node):
-            if isinstance(n, ast.Call) and dotted(n.func) in ('open', 'io.open', 'codecs.open'):
-                mode = _open_mode(n)
-                if mode is None or not isinstance(mode, str) or any(c in mode for c in 'wax+'):
-                    writers.append((f, n, mode))
+        has_open = any(isinstance(n, ast.Call) and dotted(n.func) in ('open', 'io.open', 'codecs.open')
+                       for n in walk_shallow(f.node))
+        if not has_open:
+            continue
+        for p in ctx.paths(f, 'plain'):
+            for e in p.trace:
+                if e.kind == 'EXT' and e.d['name'] in ('builtins.open', 'io.open', 'codecs.open') and e.fn is f:
+                    args, kw = e.d['args'], e.d['kwargs']
+                    m = kw.get('mode') or (args[1] if len(args) > 1 else None)
+                    mode = 'r' if m is None else (m.val if m.is_const else None)
+                    if mode is None or not isinstance(mode, str) or any(c in mode for c in 'wax+'):
+                        k = (f.qual, e.line, e.node.col_offset, mode)
+                        if k not in seen:
+                            seen.add(k)
+                            writers.append((f, e.node, mode))
+    ctx._writer_cache = writers
     return writers
 
 
